@@ -20,13 +20,29 @@ impl<T> Drop for List<'_, T> {
 
 impl<'a, T> Node<'a, T> {
     fn from_iter(mut iter: impl Iterator<Item = T> + 'a) -> Self {
-        Self(iter.next().map(|x| (x, List::from_iter(iter))))
+        Self(iter.next().map(|x| {
+            // if the iterator tells us that it is exhausted, make the tail a known empty list,
+            // so that consumers can find out that the list ends here without evaluating anything
+            let tail = if iter.size_hint() == (0, Some(0)) {
+                List::empty()
+            } else {
+                List::from_iter(iter)
+            };
+            (x, tail)
+        }))
     }
 }
 
 impl<'a, T> List<'a, T> {
     pub fn from_iter(iter: impl Iterator<Item = T> + 'a) -> Self {
         Self(Rc::new(Lazy::new(Box::new(|| Node::from_iter(iter)))))
+    }
+
+    /// Return an (already evaluated) empty list.
+    fn empty() -> Self {
+        let lazy: Lazy<Node<'a, T>, Eval<'a, T>> = Lazy::new(Box::new(|| Node(None)));
+        Lazy::force(&lazy);
+        Self(Rc::new(lazy))
     }
 }
 
@@ -41,6 +57,14 @@ impl<'a, T: Clone + 'a> Iterator for List<'a, T> {
                 *self = xs.clone();
                 Some(x)
             }
+        }
+    }
+
+    /// Report an empty list only if this is known without evaluating anything.
+    fn size_hint(&self) -> (usize, Option<usize>) {
+        match Lazy::get(&self.0) {
+            Some(Node(None)) => (0, Some(0)),
+            _ => (0, None),
         }
     }
 }
